@@ -92,4 +92,25 @@ PROPS = {
             "and by reproducing the official digests in corpus/kat.txt",
         ],
     },
+    "C10": {
+        "modules": [T + "C10", T + "C01"],
+        "theorems": [(T + "C10.length_error_iff", T + "C10"),
+                     (T + "C10.finalize_mono", T + "C10"),
+                     (T + "C10.quarter_implies_half", T + "C10"),
+                     (T + "C01.tables", T + "C01")],
+        "extract_keys": ["length thresholds", "length MAX", "option flags", "FuzzyHashBucketMapper"],
+        "spec_is_property": False,
+        "streams": {
+            "quick": [("default", "state", 3000), ("default", "limits", 300), ("embedded", "state", 1000),
+                      ("default", "gen", 1500)],
+            "thorough": [("default", "state", 40000), ("default", "limits", 5000), ("embedded", "state", 20000),
+                         ("naive", "state", 20000), ("unsafe", "state", 10000), ("default", "gen", 20000),
+                         ("default-dev", "state", 10000)],
+        },
+        "assumptions": [
+            "the option gates are modelled by Model.lengthGate / distributionGate (hand transcription of "
+            "finalize_with_options); tie: every injected state is finalized under all 32 option settings and "
+            "compared with the model; the probe also checks monotonicity directly on those 32 results",
+        ],
+    },
 }
